@@ -152,3 +152,224 @@ REG.contract(
     modifies=[("InfrastructureInfo." + f, "FRESH") for f in II_FIELDS] + ["alloc"],
     ensures=[C("C07.remaining_amp_periods", lambda old, new, ret: ret == rap(old, old.self, old.ev))],
     extra=dict(ghost_entry=_rap_define))
+
+
+# ---------------------------------------------------------------------------- what the scheduler observes: the active sessions (C05)
+from .simulator import occupants_know_their_station, _occ_at, _sid, _E, _rate, evse_at
+N_ = "acnportal.acnsim.network.charging_network.ChargingNetwork."
+SIM_ = "acnportal.acnsim.simulator.Simulator."
+REQ = ("EV._requested_energy#0", z3.RealSort())
+
+
+def _req(s, e):
+    return z3.Select(s.heap_array(*REQ), e)
+
+
+def is_active(s, e):
+    """connected EV whose demand is not yet met: remaining demand (requested - delivered) above 1e-3 kWh"""
+    return z3.And(e != 0, _req(s, e) - _E(s, e) > z3.RealVal("1/1000"))
+
+
+def station_pos(net, sid):
+    from pyvc import maplib
+    return maplib._kpos(net._EVSEs.keys.v.arrs[0], sid)
+
+
+def active_list_spec(s, net, ret):
+    """ret lists exactly the active occupants, once each, in station registration order"""
+    j, k, p = z3.Int("al!j"), z3.Int("al!k"), z3.Int("al!p")
+    n = net._EVSEs.keys.len
+    a = ret.v.arrs[0]
+    occ_p = s.field_of(evse_at(s, net, p), "BaseEVSE", "_ev").ref
+    lam = z3.is_quantifier(a) and a.is_lambda()        # a comprehension result is a lambda array: no E-matching pattern can mention it
+    pj = None if lam else [z3.Select(a, j)]
+    pjk = None if lam else [z3.MultiPattern(z3.Select(a, j), z3.Select(a, k))]
+    return [
+        ("every_listed_ev_is_a_connected_unsatisfied_session",
+         FA([j], z3.Implies(z3.And(j >= 0, j < ret.len), z3.Exists([p], z3.And(p >= 0, p < n, occ_p == z3.Select(a, j), is_active(s, z3.Select(a, j))))),
+            patterns=pj)),
+        ("every_connected_unsatisfied_session_is_listed",
+         FA([p], z3.Implies(z3.And(p >= 0, p < n, is_active(s, occ_p)), z3.Exists([j], z3.And(j >= 0, j < ret.len, z3.Select(a, j) == occ_p))),
+            patterns=[evse_at(s, net, p)])),
+        ("listed_in_station_order_without_repetition",
+         FA([j, k], z3.Implies(z3.And(j >= 0, j < k, k < ret.len),
+                               station_pos(net, _sid(s, z3.Select(a, j)).val) < station_pos(net, _sid(s, z3.Select(a, k)).val)),
+            patterns=pjk)),
+    ]
+
+
+REG.contract(
+    N_ + "active_evs", params=dict(self=Ref("ChargingNetwork", exact=True)), ret=Seq(Ref("EV")), modifies=[],
+    requires=[C("wf", lambda s: And(net_wf(s, s.self), occupants_know_their_station(s, s.self)))],
+    ensures=[C("C05.active_evs", lambda old, new, ret: active_list_spec(old, old.self, ret), props=("C05",))],
+)
+
+
+def _ev_record(s, r):
+    """what an EV object (original or copy) says about its session"""
+    sid = _sid(s, r)
+    return dict(station=sid.val, station_none=sid.isnone, session=s.field_of(r, "EV", "_session_id"), requested=_req(s, r), delivered=_E(s, r),
+                arrival=s.field_of(r, "EV", "_arrival"), departure=s.field_of(r, "EV", "_departure"),
+                estimated_departure=s.field_of(r, "EV", "_estimated_departure"), rate=_rate(s, r))
+
+
+def _si_record(s, r):
+    f = lambda n: s.field_of(r, "SessionInfo", n)
+    return dict(station=f("station_id"), station_none=z3.BoolVal(False), session=f("session_id"), requested=f("requested_energy"), delivered=f("energy_delivered"),
+                arrival=f("arrival"), departure=f("departure"), estimated_departure=f("estimated_departure"))
+
+
+def same_record(a, b):
+    return z3.And(*[a[k] == b[k] for k in a if k in b])
+
+
+def observed_sessions_spec(old, new, net, ret, record, fresh=True):
+    """`ret` (objects of the post-state `new`) describes exactly the sessions that are connected and not yet satisfied in `old`, one record each,
+    in station registration order, every record carrying that session's TRUE station id, session id, requested and delivered energy, arrival,
+    departure and estimated departure; the records are fresh objects (mutating them cannot touch the simulation)"""
+    j, k, p = z3.Int("os!j"), z3.Int("os!k"), z3.Int("os!p")
+    n = net._EVSEs.keys.len
+    a = ret.v.arrs[0]
+    lam = z3.is_quantifier(a) and a.is_lambda()
+    occ_p = old.field_of(evse_at(old, net, p), "BaseEVSE", "_ev").ref
+    rj, rk = z3.Select(a, j), z3.Select(a, k)
+    out = [
+        ("every_record_is_a_connected_unsatisfied_session_with_its_true_data",
+         FA([j], z3.Implies(z3.And(j >= 0, j < ret.len), z3.Exists([p], z3.And(p >= 0, p < n, is_active(old, occ_p), same_record(record(new, rj), _ev_record(old, occ_p))))),
+            patterns=None if lam else [rj])),
+        ("every_connected_unsatisfied_session_has_a_record",
+         FA([p], z3.Implies(z3.And(p >= 0, p < n, is_active(old, occ_p)), z3.Exists([j], z3.And(j >= 0, j < ret.len, same_record(record(new, rj), _ev_record(old, occ_p))))),
+            patterns=[evse_at(old, net, p)])),
+        ("records_in_station_order_without_repetition",
+         FA([j, k], z3.Implies(z3.And(j >= 0, j < k, k < ret.len), station_pos(net, record(new, rj)["station"]) < station_pos(net, record(new, rk)["station"])),
+            patterns=None if lam else [z3.MultiPattern(rj, rk)])),
+    ]
+    if fresh:
+        out.append(("records_are_fresh_objects", FA([j], z3.Implies(z3.And(j >= 0, j < ret.len), z3.And(rj != 0, z3.Not(old.alloc_ref(rj)))), patterns=None if lam else [rj])))
+        if record is _ev_record:
+            bj = new.field_of(rj, "EV", "_battery").ref
+            out.append(("copied_evs_own_fresh_batteries", FA([j], z3.Implies(z3.And(j >= 0, j < ret.len), z3.And(bj != 0, z3.Not(old.alloc_ref(bj)))),
+                                                             patterns=None if lam else [rj])))
+    return out
+
+
+EV_FIELDS_ALL = ["_arrival", "_departure", "_session_id", "_station_id", "_requested_energy", "_estimated_departure", "_battery", "_energy_delivered",
+                 "_current_charging_rate"]
+BATT_FIELDS_ALL = ["Battery._capacity", "Battery._current_charge", "Battery._init_charge", "Battery._max_power", "Battery._current_charging_power",
+                   "Linear2StageBattery._noise_level", "Linear2StageBattery._transition_soc", "Linear2StageBattery.charge_calculation"]
+
+REG.contract(
+    SIM_ + "get_active_evs", params=dict(self=Ref("Simulator")), ret=Seq(Ref("EV")),
+    requires=[C("wf", lambda s: And(net_wf(s, s.self.network), occupants_know_their_station(s, s.self.network)))],
+    modifies=[("EV." + f, "FRESH") for f in EV_FIELDS_ALL] + [(f, "FRESH") for f in BATT_FIELDS_ALL] + ["alloc"],
+    ensures=[C("C05.active_evs_are_copies_of_the_connected_unsatisfied_sessions",
+               lambda old, new, ret: observed_sessions_spec(old, new, old.self.network, ret, _ev_record), props=("C05",))],
+)
+
+
+SI_FIELDS = ["station_id", "session_id", "requested_energy", "energy_delivered", "arrival", "departure", "estimated_departure", "current_time", "min_rates", "max_rates"]
+_OBS_MOD = [("EV." + f, "FRESH") for f in EV_FIELDS_ALL] + [(f, "FRESH") for f in BATT_FIELDS_ALL] + [("SessionInfo." + f, "FRESH") for f in SI_FIELDS] + ["alloc"]
+
+
+def sessions_valid(s, net):
+    """every connected session is a valid one: departure and estimated departure after arrival (SessionInfo's constructor checks it)"""
+    k = z3.Const("sv!k", IdSort)
+    m = net._EVSEs._v
+    e = _occ_at(s, net, k)
+    f = lambda n: s.field_of(e, "EV", n)
+    return FA([k], z3.Implies(z3.And(z3.Select(m.dom, k), e != 0), z3.And(f("_departure") > f("_arrival"), f("_estimated_departure") > f("_arrival"))),
+              patterns=[z3.Select(m.arrs[0], k)])
+
+
+def _sessions_post(old, new, ret):
+    net = old.self._simulator.network
+    j = z3.Int("sp!j")
+    a = ret.v.arrs[0]
+    lam = z3.is_quantifier(a) and a.is_lambda()
+    return observed_sessions_spec(old, new, net, ret, _si_record) + [
+        ("C05.records_carry_the_current_period", FA([j], z3.Implies(z3.And(j >= 0, j < ret.len),
+                                                                     new.field_of(z3.Select(a, j), "SessionInfo", "current_time") == old.self._simulator._iteration),
+                                                    patterns=None if lam else [z3.Select(a, j)]))]
+
+
+for _fn in ("_active_sessions", "active_sessions"):
+    REG.contract(
+        IF + _fn, params=dict(self=Ref("Interface")), ret=Seq(Ref("SessionInfo")),
+        requires=[C("wf", lambda s: And(net_wf(s, s.self._simulator.network), occupants_know_their_station(s, s.self._simulator.network),
+                                        sessions_valid(s, s.self._simulator.network)))],
+        modifies=_OBS_MOD,
+        ensures=[C("C05.active_sessions_are_exactly_the_connected_unsatisfied_sessions_with_their_true_data", _sessions_post, props=("C05",))],
+    )
+
+
+# ---------------------------------------------------------------------------- previous rates / pilots / peak / time
+def distinct_session_ids(s, net):
+    p, q = z3.Int("ds!p"), z3.Int("ds!q")
+    n = net._EVSEs.keys.len
+    op = s.field_of(evse_at(s, net, p), "BaseEVSE", "_ev").ref
+    oq = s.field_of(evse_at(s, net, q), "BaseEVSE", "_ev").ref
+    return FA([p, q], z3.Implies(z3.And(p >= 0, p < q, q < n, op != 0, oq != 0), s.field_of(op, "EV", "_session_id") != s.field_of(oq, "EV", "_session_id")),
+              patterns=[z3.MultiPattern(evse_at(s, net, p), evse_at(s, net, q))])
+
+
+def _keyed_by_session(old, net, ret, value_of, extra_cond=lambda e: z3.BoolVal(True)):
+    """ret maps the session id of every active (and selected) occupant to value_of(occupant, station position) and has no other key"""
+    p = z3.Int("kb!p")
+    k = z3.Const("kb!k", IdSort)
+    n = net._EVSEs.keys.len
+    e = old.field_of(evse_at(old, net, p), "BaseEVSE", "_ev").ref
+    sess = old.field_of(e, "EV", "_session_id")
+    m = ret._v
+    sel = z3.And(p >= 0, p < n, is_active(old, e), extra_cond(e))
+    return [
+        ("every_selected_session_is_a_key_with_its_true_value", FA([p], z3.Implies(sel, z3.And(z3.Select(m.dom, sess), z3.Select(m.arrs[0], sess) == value_of(e, p))),
+                                                                   patterns=[evse_at(old, net, p)])),
+        ("no_other_key", FA([k], z3.Implies(z3.Select(m.dom, k), z3.Exists([p], z3.And(sel, sess == k))), patterns=[z3.Select(m.dom, k)])),
+    ]
+
+
+_OBS_REQ = [C("wf", lambda s: And(net_wf(s, s.self._simulator.network), occupants_know_their_station(s, s.self._simulator.network),
+                                  distinct_session_ids(s, s.self._simulator.network)))]
+_EV_MOD = [("EV." + f, "FRESH") for f in EV_FIELDS_ALL] + [(f, "FRESH") for f in BATT_FIELDS_ALL] + ["alloc"]
+
+REG.contract(
+    IF + "last_actual_charging_rate", params=dict(self=Ref("Interface")), ret=Map(Id, Real), requires=_OBS_REQ, modifies=_EV_MOD,
+    ensures=[C("C05.previous_actual_rates_of_exactly_the_active_sessions",
+               lambda old, new, ret: _keyed_by_session(old, old.self._simulator.network, ret, lambda e, p: _rate(old, e)), props=("C05",))])
+
+
+def _lap_post(old, new, ret):
+    sim = old.self._simulator
+    net = sim.network
+    i = sim._iteration - 1
+    arrived = lambda e: old.field_of(e, "EV", "_arrival") <= i
+    body = _keyed_by_session(old, net, ret, lambda e, p: sim.pilot_signals[p, i], arrived)
+    return [("from_the_third_period_on", Implies(i > 0, And(*[g for _, g in body]))),
+            ("nothing_before", Implies(Not(i > 0), FA([z3.Const("lp!k", IdSort)], z3.Not(z3.Select(ret._v.dom, z3.Const("lp!k", IdSort))))))]
+
+
+REG.contract(
+    IF + "last_applied_pilot_signals", params=dict(self=Ref("Interface")), ret=Map(Id, Real),
+    requires=_OBS_REQ + [C("shapes", lambda s: And(s.self._simulator.pilot_signals.rows == s.self._simulator.network._EVSEs.keys.len,
+                                                   s.self._simulator.pilot_signals.cols >= s.self._simulator._iteration, s.self._simulator._iteration >= 0))],
+    modifies=_EV_MOD,
+    ensures=[C("C05.previous_pilots_of_the_active_sessions_that_had_arrived", _lap_post, props=("C05",))])
+
+REG.contract(IF + "current_time", params=dict(self=Ref("Interface")), ret=Int, modifies=[],
+             ensures=[C("C05.current_period", lambda old, new, ret: ret == old.self._simulator._iteration, props=("C05",))])
+REG.contract(IF + "period", params=dict(self=Ref("Interface")), ret=Real, modifies=[],
+             ensures=[C("C05.period_length", lambda old, new, ret: ret == old.self._simulator.period, props=("C05",))])
+REG.contract(IF + "get_prev_peak", params=dict(self=Ref("Interface")), ret=Real, modifies=[],
+             ensures=[C("C05.peak_so_far", lambda old, new, ret: ret == old.self._simulator.peak, props=("C05",))])
+
+REG.contract(
+    SIM_ + "index_of_evse", params=dict(self=Ref("Simulator"), station_id=Id), ret=Int, modifies=[],
+    requires=[C("wf", lambda s: net_wf(s, s.self.network))],
+    raises=[RaiseSpec("KeyError", lambda s: Not(s.self.network._EVSEs.has(s.station_id)), iff=True, unchanged=True)],
+    ensures=[C("C05.registration_position", lambda old, new, ret: And(ret == station_pos(old.self.network, old.station_id), ret >= 0,
+                                                                      ret < old.self.network._EVSEs.keys.len), props=("C05",))])
+
+REG.contract(IF + "current_datetime", params=dict(self=Ref("Interface")), ret=Ref("datetime"), fresh_ret=True, modifies=["alloc", ("datetime.theta", "FRESH")],
+             ensures=[C("C05.current_datetime_is_start_plus_period_times_iteration",
+                        lambda old, new, ret: new.field_of(ret.ref, "datetime", "theta")
+                        == old.self._simulator.start.theta + 60 * old.self._simulator.period * z3.ToReal(old.self._simulator._iteration), props=("C05",))])
